@@ -152,6 +152,7 @@ func (r *Router) match(method, path string) (rt *Route, ps Params) {
 
 	// find in cached routes
 	if r.enableCaching {
+		verifYield("cache.lookup")
 		route, ok := r.cachedRoutes.Get(method + path)
 		if ok {
 			return route, route.params
@@ -195,6 +196,7 @@ func (r *Router) cacheDynamicRoute(key string, ps Params, route *Route) {
 		return
 	}
 
+	verifYield("cache.store")
 	// copy new route instance. Notice: cache matched Params
 	r.cachedRoutes.Set(key, route.copyWithParams(ps))
 }
@@ -217,6 +219,7 @@ func (r *Router) findAllowedMethods(method, path string) (allowed []string) {
 		for m := range mMap {
 			allowed = append(allowed, m)
 		}
+		allowed = verifOrder("allowed", allowed)
 	}
 	return
 }
